@@ -14,11 +14,12 @@ for d in sorted(glob.glob(os.path.join(V, "seeded", "*", "meta.json"))):
             caught.append("%s (%d sig.; e.g. %s)" % (k, v["violations"], sig[:90]))
     missed = [k for k, v in (m.get("checks") or {}).items() if not v.get("violations")]
     rows.append((name, m.get("property"), (m.get("summary") or "")[:160].replace("|", "/"), (m.get("needs") or "")[:140].replace("|", "/"),
-                 "yes" if conf else "NO", "; ".join(caught) or "-", ", ".join(missed) or "-", (m.get("strengthened") or "").replace("|", "/")))
+                 "yes" if conf else "NO", "; ".join(caught) or "-", ", ".join(missed) or "-", ((m.get("strengthened") or "") + ((" [applies up to /repo commit %s: a later fix: commit rewrote the same lines]" % m["applies_up_to_commit"]) if m.get("applies_up_to_commit") else "")).replace("|", "/")))
 out = ["# Seeded property-breaking changes", "",
        "Each change was produced by a fresh sub-agent that saw only the property text and a scratch worktree of /repo; it compiles, passes the",
        "repository's whole test suite, and comes with a demonstration that fails with it and passes without it (re-confirmed by `tools/seedverify.py`).",
-       "`tools/seedeval.py` applies the patch to /repo, runs the named checks and restores /repo.", "",
+       "`tools/seedeval.py` applies the patch to a scratch worktree of /repo and runs the named checks against it (VERIF_REPO). Ten early changes no longer",
+       "apply to /repo HEAD because later `fix:` commits rewrote the same lines; the commit each of them applies to is noted in the last column.", "",
        "| change | property | what it does | needs | confirmed | caught by | not caught by | strengthening |", "|---|---|---|---|---|---|---|---|"]
 for r in rows:
     out.append("| " + " | ".join(r) + " |")
